@@ -55,8 +55,9 @@ def name_tok(draw):
 
 
 def is_canonical_decimal(s):
+    """what the tools read as an integer literal: the canonical decimal spelling of an int64 (a digit string beyond that range is not a number)"""
     try:
-        return str(int(s)) == s
+        return str(int(s)) == s and -2 ** 63 <= int(s) < 2 ** 63
     except ValueError:
         return False
 
@@ -72,8 +73,16 @@ def hex_tok(draw):
     elif k < 8:
         n = draw(st.sampled_from([5, 20, 32, 33, 64, 65, 74, 75, 76, 77, 254, 255, 256, 257, 519, 520, 521, 600]))
         b = draw(st.binary(min_size=n, max_size=n))
-    else:
+    elif k < 9:
         b = draw(st.binary(min_size=0, max_size=80))
+    else:
+        # ambiguous digit-only strings: every nibble is a decimal digit. Up to 9 bytes they read as int64 decimals unless they start with 0
+        # (then the generator falls back to 0x); from 10 bytes (20 digits) on they are beyond int64 and are bytes again
+        n = draw(st.sampled_from([1, 2, 3, 4, 5, 8, 9, 10, 10, 10, 11, 16, 20, 32, 32, 33, 40, 64, 65, 80]))
+        b = bytes(draw(st.integers(0, 9)) * 16 + draw(st.integers(0, 9)) for _ in range(n))
+        if draw(st.booleans()) and b[0] < 0x10:
+            b = bytes([b[0] + 0x10]) + b[1:]
+        return ('hex', b, '0x' if is_canonical_decimal(b.hex()) or draw(st.integers(0, 5)) == 0 else '', False)
     prefix = draw(st.sampled_from(['0x', '0x', '']))
     upper = draw(st.integers(0, 4)) == 0
     text = b.hex().upper() if upper else b.hex()
@@ -112,6 +121,8 @@ def classify(toks):
             cls.add('short-noncanonical-hex')
         if t[0] == 'hex' and len(t[1]) > 75:
             cls.add('long-hex')
+        if t[0] == 'hex' and t[2] == '' and t[1].hex().isdigit():
+            cls.add('bare-digit-only-hex' + ('-beyond-int64' if len(t[1]) >= 10 else ''))
         if t[0] == 'int' and len(R.num_enc(t[1])) >= 5:
             cls.add('big-decimal')
         if t[0] == 'op' and 'x' in t[1][:4].lower() and t[1].lstrip('OP_')[:1] == 'x':
